@@ -5,5 +5,7 @@ export GOFLAGS=-mod=mod GOPROXY=off GOSUMDB=off GOTOOLCHAIN=local CGO_ENABLED=0
 cd /verif/mc
 cp /repo/go.sum /verif/mc/go.sum
 mkdir -p /verif/bin /verif/evidence
-go build -tags verif -o /verif/bin/check ./cmd/check
+/verif/mkoverlay.sh /verif/bin/ov.setup
+go build -tags verif -overlay /verif/bin/ov.setup/overlay.json -o /verif/bin/check ./cmd/check
+rm -rf /verif/bin/ov.setup
 echo setup ok
